@@ -163,14 +163,13 @@ def headerKey : Cell → Option String
   | _ => Option.none
 
 /-- `_data_columns_as_dict(data, columns)` followed by `_value` on every column (line 331).
-`none` = a combination outside the modelled universe (records or malformed headers with `columns=`). -/
+`none` = a combination outside the modelled universe (a header row holding something else than strings / ints). -/
 def dataCols (data : Data) (columns : Option (List String)) : Option (Except Err Table) :=
   match data, columns with
   | .none, _ => some (.ok [])
   | .cols kvs, _ => some (.ok (Table.ofPairs (kvs.map fun kv => (kv.1, kv.2.value))))
   | .recs [], _ => some (.ok [])
-  | .recs rs, Option.none => some (.ok (dictConcat rs))
-  | .recs _, some _ => Option.none
+  | .recs rs, _ => some (.ok (dictConcat rs))      -- with `columns=` too (repaired code): `construct` restricts to them
   | .rows [], _ => some (.ok [])
   | .rows rs, some cs =>
       -- dict(zipper(columns, zipper(*data)))
@@ -180,10 +179,11 @@ def dataCols (data : Data) (columns : Option (List String)) : Option (Except Err
           | .error e => .error e
           | .ok kvs => .ok (Table.ofPairs kvs))
   | .rows (hd :: rs), Option.none =>
-      -- dict(zipper(data[0], zipper(*data[1:])))
+      -- dict(zipper(data[0], zipper(*data[1:]))); a header without any row: the columns, empty (repaired code)
       match hd.mapM headerKey with
       | Option.none => Option.none
-      | some hs => some (match zipper Cell.none rs with
+      | some hs => if rs.isEmpty then some (.ok (Table.ofPairs (hs.map fun h => (h, [])))) else
+        some (match zipper Cell.none rs with
         | .error e => .error e
         | .ok tr => match zipper2 hs tr with
           | .error e => .error e
@@ -279,6 +279,12 @@ def getMask (t : Table) (m : List Bool) : Except Err Table :=
   | .error e => .error e
   | .ok idx => if idx.isEmpty then .ok t.emptyLike else .ok (t.gatherRows idx)
 
+/-- `d[mask]` as `__getitem__` accepts it (repaired code): one flag per row, or a single flag; any other length
+is a `ValueError` - in particular for a ONE-row table, whose row `zipper` would repeat once per flag
+(`getMask` alone, see `Pyg.Props.C01.mask_one_row_repeats`) -/
+def getMaskC (t : Table) (m : List Bool) : Except Err Table :=
+  if m.length = t.nrows ∨ m.length = 1 then t.getMask m else .error .value
+
 /-- `d[[i, j, ...]]` (lines 392-394), non-empty int list; `d[[]]` is `emptyLike` (line 386) -/
 def getTake (t : Table) (is : List Int) : Except Err Table :=
   if is.isEmpty then .ok t.emptyLike else
@@ -312,7 +318,8 @@ def Fn.args : Fn → List String
   | .coalesce a b => [a, b]
   | .const _ => []
 
-/-- `kwargs_support(f)(**row)`: `TypeError` when a parameter is not among the columns -/
+/-- `kwargs_support(f)(**row)`: `TypeError` when a parameter is not among the keywords offered (`row`: the
+columns; inside `d(**kw)` also `key`, see `keyDflt`) -/
 def Fn.eval (f : Fn) (row : String → Option Cell) : Except Err Cell :=
   match f with
   | .idcol a => match row a with | some x => .ok x | Option.none => .error .type
@@ -322,15 +329,27 @@ def Fn.eval (f : Fn) (row : String → Option Cell) : Except Err Cell :=
       | _, _ => .error .type
   | .const c => .ok c
 
+/-- the parameters a callable sees inside `d(**kw)`: the row's cells, and `key` (the name of the column being
+defined) where the row has no cell of that name -/
+def keyDflt (key : String) (row : String → Option Cell) : String → Option Cell :=
+  fun a => match row a with
+    | some x => some x
+    | Option.none => if a == "key" then some (.str key) else Option.none
+
 namespace Table
 
 /-- `d.apply(f)`: one value per row (line 670-672) -/
 def applyFn (t : Table) (f : Fn) : Except Err (List Cell) :=
   mapE (fun i => f.eval (t.cellAt i)) (List.range t.nrows)
 
-/-- `res[key] = res.apply(f)` -/
+/-- `res.apply(f, key = key)`: inside `d(**kw)` every callable is also offered the keyword `key = <name of the
+new column>` (`default_params`, overridden by the row's own cells: `_dict_in_place_update(default_params, row)`) -/
+def applyFnK (t : Table) (key : String) (f : Fn) : Except Err (List Cell) :=
+  mapE (fun i => f.eval (keyDflt key (t.cellAt i))) (List.range t.nrows)
+
+/-- `res[key] = res.apply(f, key = key)` (`Dict.__call__`, _dict.py:88-92) -/
 def setFn (t : Table) (kf : String × Fn) : Except Err Table :=
-  match t.applyFn kf.2 with
+  match t.applyFnK kf.1 kf.2 with
   | .error e => .error e
   | .ok vs => t.setitem kf.1 (.many vs)
 
@@ -520,7 +539,7 @@ def step (s : Heap) (op : Op) : Heap × Out :=
   | .tup h ks => withT h fun t => s.query ((t.getTuple ks).map fun rs => .list (rs.map fun r => .tuple (r.map .cell)))
   | .apply h f => withT h fun t => s.query ((t.applyFn f).map cellsVal)
   | .slice dst h a b st => withT h fun t => s.bind dst (t.getSlice a b st)
-  | .mask dst h m => withT h fun t => s.bind dst (t.getMask m)
+  | .mask dst h m => withT h fun t => s.bind dst (t.getMaskC m)
   | .take dst h is => withT h fun t => s.bind dst (t.getTake is)
   | .proj dst h ks => withT h fun t => s.bind dst (t.getProj ks)
   | .call dst h consts fns => withT h fun t => s.bind dst (t.call consts fns)
